@@ -165,8 +165,20 @@ def loaded_records(results, case):
     for fold in range(n_folds):
         for part in (["test", "train"] if case["predict_on_train"] else ["test"]):
             for w in results.load_predictions(cv_fold=fold, train_or_test=part):
-                out[(w.strategy_name, w.dataset_name, fold, part)] = (w.index, w.y_true, w.y_pred)
+                key = (w.strategy_name, w.dataset_name, fold, part)
+                if key in out:
+                    DUPS.append(key)
+                out[key] = (w.index, w.y_true, w.y_pred)
     return out
+
+
+DUPS = []  # records that load_predictions enumerated more than once (since the last dup_discs call)
+
+
+def dup_discs(what):
+    d = [D("record_enumerated_more_than_once:%s" % what, "load_predictions yields %s %d times" % (k, 1 + DUPS.count(k))) for k in sorted(set(DUPS))[:1]]
+    del DUPS[:]
+    return d
 
 
 def units(case):
@@ -205,7 +217,7 @@ def oracle(case, ctx):
         got = sut(loaded_records, res, case)
         if isinstance(got, Raised):
             return [D("load_predictions_raised:ram:%s" % got.type, got.msg)]
-        return same_records(got, exp, "ram")
+        return same_records(got, exp, "ram") + dup_discs("ram")
     root = load.work_dir("c19", "p%d" % os.getpid())
     try:
         # ---------- uninterrupted reference run
@@ -228,7 +240,7 @@ def oracle(case, ctx):
         if isinstance(got, Raised):
             discs.append(D("load_predictions_raised:disk:%s" % got.type, got.msg))
         else:
-            discs += same_records(got, exp, "disk_readback")
+            discs += same_records(got, exp, "disk_readback") + dup_discs("disk_readback")
         if case["save_fitted"]:
             want = {os.path.join(s, d, "%s_train_%d.pickle" % (s, f)) for (s, d, f) in units(case)}
             have = {k for k in ref_files if k.endswith(".pickle") and k != "results.pickle"}
@@ -239,19 +251,30 @@ def oracle(case, ctx):
         ref_enum = set((k[0], k[1]) for k in got)
         # ---------- identical second run: no fits; overwriting run: all fits
         doubles.reset_calls()
-        r = sut(run, case, HDDResults(ref))
+        res_again = HDDResults(ref)
+        r = sut(run, case, res_again)
         if isinstance(r, Raised):
             discs.append(D("rerun_raised:%s@%s" % (r.type, r.where), r.msg))
         elif doubles.CALLS["fits"] != 0:
             discs.append(D("identical_rerun_recomputes", "%d fits in a second identical run" % doubles.CALLS["fits"]))
         elif listing(ref).keys() != ref_files.keys() or any(listing(ref)[k] != ref_files[k] for k in ref_files if k != "results.pickle"):
             discs.append(D("identical_rerun_modifies_store", ""))
+        else:
+            # what the store of the repeated run enumerates: the same records, each once
+            ctx.label("readback_after_rerun")
+            g2 = sut(loaded_records, res_again, case)
+            if isinstance(g2, Raised):
+                discs.append(D("load_predictions_raised:rerun:%s" % g2.type, g2.msg))
+            else:
+                discs += same_records(g2, exp, "readback_after_rerun") + dup_discs("readback_after_rerun")
         doubles.reset_calls()
         r = sut(run, case, HDDResults(ref), overwrite_predictions=True, overwrite_fitted_strategies=case["save_fitted"])
         if isinstance(r, Raised):
             discs.append(D("overwrite_run_raised:%s@%s" % (r.type, r.where), r.msg))
         elif doubles.CALLS["fits"] != n_fits_full:
             discs.append(D("overwrite_run_skips", "%d fits with overwriting enabled, expected %d" % (doubles.CALLS["fits"], n_fits_full)))
+        else:
+            discs += same_records(records_on_disk(ref), exp, "disk_after_overwriting_run")
         if discs:
             return discs
         # ---------- a sequence of runs whose options grow (nothing is overwritten): the second
@@ -326,6 +349,7 @@ def oracle(case, ctx):
             else:
                 discs += same_records(records_on_disk(d), ref_records, "resumed(k=%d)" % k)
             lr = sut(loaded_records, res2, case)
+            discs += dup_discs("resumed(k=%d)" % k)
             if isinstance(lr, Raised):
                 discs.append(D("load_predictions_raised:resumed:%s" % lr.type, "crash point %d/%d: %s" % (k, K, lr.msg)))
             elif set((a, b) for (a, b, _, _) in lr) != ref_enum:
